@@ -3,7 +3,7 @@ From Coq Require Import List NArith ZArith Arith Lia Bool ZifyN ZifyNat.
 From Coq.Strings Require Import Byte.
 From RecordUpdate Require Import RecordSet.
 From Model Require Import Bytes Utf8 Frame Parser FrameParser Response Conn.
-From Proofs Require Import BytesFacts Utf8Facts ParserFacts FrameParserFacts FrameFacts ConnFacts ApiFacts.
+From Proofs Require Import BytesFacts Utf8Facts ParserFacts FrameParserFacts FrameFacts ConnFacts ApiFacts TraceFacts.
 Import ListNotations RecordSetNotations.
 Open Scope N_scope.
 
@@ -197,12 +197,13 @@ Definition passive (app : strategy) : Prop := forall tr, app tr = [].
 (* the fields the receive path depends on *)
 Definition same_core (c c' : conn) : Prop :=
   k_ps c' = k_ps c /\ k_frames c' = k_frames c /\ k_closing c' = k_closing c /\ k_closed c' = k_closed c /\
-  k_deflate c' = k_deflate c /\ k_sent_close_time c' = k_sent_close_time c /\ k_ready c' = k_ready c.
+  k_deflate c' = k_deflate c /\ k_sent_close_time c' = k_sent_close_time c /\ k_ready c' = k_ready c /\
+  k_sock c' = k_sock c.
 
 Lemma same_core_refl c : same_core c c.
 Proof. unfold same_core. tauto. Qed.
 Lemma same_core_trans a b c : same_core a b -> same_core b c -> same_core a c.
-Proof. unfold same_core. intros (A1&A2&A3&A4&A5&A6&A7) (B1&B2&B3&B4&B5&B6&B7). repeat split; congruence. Qed.
+Proof. unfold same_core. intros (A1&A2&A3&A4&A5&A6&A7&A8) (B1&B2&B3&B4&B5&B6&B7&B8). repeat split; congruence. Qed.
 
 (* message events of a trace, most recent first *)
 Definition is_msg_ev (e : ev) : bool :=
@@ -433,7 +434,7 @@ Section Delivery2.
                k_ps c1 = k_ps c /\ k_closed c1 = false /\ k_closing c1 = false /\ k_deflate c1 = None /\
                k_sent_close_time c1 = None /\ k_frames c1 = open1 /\ Forall (fun f => f_rsv1 f = false) open1 /\
                data_head open1 /\
-               msg_events (k_tr c1) = rev (map ev_of ms) ++ msg_events (k_tr c).
+               msg_events (k_tr c1) = rev (map ev_of ms) ++ msg_events (k_tr c) /\ k_sock c1 = k_sock c.
   Proof.
     intros Hcl Hcg Hdf Hsc Hfr Hop Hdh Hr1 Href. unfold ref1 in Href.
     destruct (negb _) eqn:Eb; [discriminate|]. apply negb_false_iff in Eb. apply andb_true_iff in Eb as [Eop Elen].
@@ -446,9 +447,9 @@ Section Delivery2.
                k_ps c1 = k_ps c /\ k_closed c1 = false /\ k_closing c1 = false /\ k_deflate c1 = None /\
                k_sent_close_time c1 = None /\ k_frames c1 = open /\ Forall (fun f => f_rsv1 f = false) open /\
                data_head open /\
-               msg_events (k_tr c1) = [e] ++ msg_events (k_tr c)).
+               msg_events (k_tr c1) = [e] ++ msg_events (k_tr c) /\ k_sock c1 = k_sock c).
     { intros e m Hc Hb Hm He Hme. unfold on_item, stream_frame. rewrite Hc, Hb, Hm.
-      destruct (yield_plain c e Hsc He) as (c1 & E1 & (S1&S2&S3&S4&S5&S6&S7) & M1). rewrite E1, Hme in *.
+      destruct (yield_plain c e Hsc He) as (c1 & E1 & (S1&S2&S3&S4&S5&S6&S7&S8) & M1). rewrite E1, Hme in *.
       exists c1. repeat split; try congruence. }
     assert (Hctl125 : is_control (f_op f) = true -> blen (f_payload f) <= 125).
     { intros Hc. unfold validate_err in Ev. cbn [hdr_of h_op h_fin h_r1 h_r2 h_r3] in Ev. rewrite Hc in Ev.
@@ -511,7 +512,7 @@ Section Delivery2.
         destruct Ev1 as [Ev1|Ev1]; [apply N.leb_gt in Ev1|apply N.leb_gt in Ev1]; unfold OP_CONT in *; lia. }
       destruct (f_fin f) eqn:Efin.
       + destruct (Data [f] f [] eq_refl ltac:(constructor; auto) eq_refl Hkind c (same_core_refl c) eq_refl Href eq_refl)
-          as (c1 & E1 & (S1&S2&S3&S4&S5&S6&S7) & -> & M1).
+          as (c1 & E1 & (S1&S2&S3&S4&S5&S6&S7&S8) & -> & M1).
         exists c1. split; [exact E1|]. repeat split; try congruence; try constructor; try exact I.
       + (* a first fragment: parked, no event *)
         assert (Hopen : ms = [] /\ open1 = [f]).
@@ -538,13 +539,13 @@ Section Delivery2.
           rewrite Eb2. destruct (uvalidate UAcc (payload_of ((o0 :: orest) ++ [f]))); [|discriminate].
           destruct (utf8_validb (payload_of ((o0 :: orest) ++ [f]))); [|discriminate]. inversion Href; subst ms open1.
           unfold on_message.
-          destruct (yield_plain c0 (EvText (payload_of ((o0 :: orest) ++ [f]))) Hs0 I) as (c1 & E1 & (S1&S2&S3&S4&S5&S6&S7) & M1). rewrite E1.
-          exists c1. split; [reflexivity|]. cbn in S1, S2, S3, S4, S5, S6. repeat split; try congruence; try constructor; try exact I.
+          destruct (yield_plain c0 (EvText (payload_of ((o0 :: orest) ++ [f]))) Hs0 I) as (c1 & E1 & (S1&S2&S3&S4&S5&S6&S7&S8) & M1). rewrite E1.
+          exists c1. split; [reflexivity|]. cbn in S1, S2, S3, S4, S5, S6, S8. repeat split; try congruence; try constructor; try exact I.
           rewrite M1. reflexivity.
         * cbn [orb] in Hdh. rewrite Hdh. inversion Href; subst ms open1.
           unfold on_message.
-          destruct (yield_plain c0 (EvBinary (payload_of ((o0 :: orest) ++ [f]))) Hs0 I) as (c1 & E1 & (S1&S2&S3&S4&S5&S6&S7) & M1). rewrite E1.
-          exists c1. split; [reflexivity|]. cbn in S1, S2, S3, S4, S5, S6. repeat split; try congruence; try constructor; try exact I.
+          destruct (yield_plain c0 (EvBinary (payload_of ((o0 :: orest) ++ [f]))) Hs0 I) as (c1 & E1 & (S1&S2&S3&S4&S5&S6&S7&S8) & M1). rewrite E1.
+          exists c1. split; [reflexivity|]. cbn in S1, S2, S3, S4, S5, S6, S8. repeat split; try congruence; try constructor; try exact I.
           rewrite M1. reflexivity.
       + assert (Hopen : ms = [] /\ open1 = (o0 :: orest) ++ [f]).
         { change (is_text_msg ((o0 :: orest) ++ [f])) with (f_op o0 =? OP_TEXT) in Href.
@@ -679,7 +680,7 @@ Section Delivery3.
     idle c open -> data_head open -> Forall plain fs -> forms_ok fs lfs ->
     ref_messages open fs = Some (ms, open') ->
     exists c', feedf cf app c (encode_all fs lfs) = (c', SOk) /\ idle c' open' /\ data_head open' /\
-               msg_events (k_tr c') = rev (map ev_of ms) ++ msg_events (k_tr c).
+               msg_events (k_tr c') = rev (map ev_of ms) ++ msg_events (k_tr c) /\ k_sock c' = k_sock c.
   Proof.
     induction fs as [|f rest IH]; intros lfs c open ms open' Hidle Hdh Hpl Hforms Href.
     - destruct lfs; [|contradiction]. cbn in Href. inversion Href; subst ms open'. cbn [encode_all].
@@ -700,14 +701,14 @@ Section Delivery3.
       cbn [encode_all].
       rewrite feedf_unfold by (eapply at_boundary_ok; exact Hab). unfold feed_body. rewrite Hcl, Hpull.
       destruct (frame_step cf app app_passive no_ping_timeout (c <| k_ps := s' |>) open f ms1 open1)
-        as (c1 & Eitem & S1 & S2 & S3 & S4 & S5 & S6 & S7 & S8 & S9); auto.
+        as (c1 & Eitem & S1 & S2 & S3 & S4 & S5 & S6 & S7 & S8 & S9 & S10); auto.
       { destruct Hpf as (A & _). exact A. }
       rewrite Eitem.
-      destruct (IH lfs c1 open1 ms2 open2) as (c' & Efeed & Hidle' & Hdh' & Hmsgs); auto.
+      destruct (IH lfs c1 open1 ms2 open2) as (c' & Efeed & Hidle' & Hdh' & Hmsgs & Hsock); auto.
       { unfold idle. repeat split; auto. exists (u_after f (is_text_msg open) u u'). split.
         - rewrite S1. cbn. rewrite <- Hita. exact Hab'.
         - exact Hts. }
-      exists c'. split; [exact Efeed|]. split; [exact Hidle'|]. split; [exact Hdh'|].
+      exists c'. split; [exact Efeed|]. split; [exact Hidle'|]. split; [exact Hdh'|]. split; [|rewrite Hsock, S10; reflexivity].
       rewrite Hmsgs, S9. cbn. rewrite map_app, rev_app_distr, app_assoc. reflexivity.
   Qed.
 
@@ -719,9 +720,370 @@ Section Delivery3.
     idle c open -> data_head open -> Forall plain fs -> forms_ok fs lfs ->
     ref_messages open fs = Some (ms, open') -> concat ds = encode_all fs lfs ->
     exists c', feed_chunks cf app c ds = (c', SOk) /\ idle c' open' /\ data_head open' /\
-               msg_events (k_tr c') = rev (map ev_of ms) ++ msg_events (k_tr c).
+               msg_events (k_tr c') = rev (map ev_of ms) ++ msg_events (k_tr c) /\ k_sock c' = k_sock c.
   Proof.
     intros Hi Hd Hp Hf Hr Hc. rewrite feed_chunks_concat by (eapply idle_ok; exact Hi). rewrite Hc.
     eapply deliver_frames; eauto.
   Qed.
 End Delivery3.
+
+(* ====================================================================================================== *)
+(* C01 at the level of the event loop: reads that cut the stream anywhere (also inside a frame), any waiting times,
+   idle timeouts, polls and automatic pings in between *)
+
+(* a proper prefix of a frame's bytes parks the parser *)
+Lemma pull_prefix_needmore s0 t u f lf a b u' :
+  at_boundary s0 t u -> plain f -> form_ok lf (blen (f_payload f)) = true ->
+  validate_err false (hdr_of f) (blen (f_payload f)) = false ->
+  (textual f t = true -> uvalidate u (f_payload f) = Some u') ->
+  enc_frame f lf = a ++ b -> b <> [] ->
+  exists sa, fp_pull s0 a = NeedMore sa.
+Proof.
+  intros Hb Hp Hf Hv Hu E Hne.
+  destruct (pull_one_frame s0 t u f lf [] u' Hb Hp Hf Hv Hu) as (s' & Hpull & _).
+  rewrite app_nil_r, E in Hpull.
+  assert (Hok : fp_ok s0) by (rewrite Hb; unfold fp_ok, st_ok; cbn; lia).
+  rewrite fp_pull_split in Hpull by exact Hok.
+  destruct (fp_pull s0 a) as [x s1 r1|sa|e]; cbn [out_app] in Hpull.
+  - injection Hpull as _ _ Hr. destruct r1; [|discriminate]. cbn in Hr. congruence.
+  - eauto.
+  - discriminate.
+Qed.
+
+Lemma pull_resume s0 a sa x : fp_ok s0 -> fp_pull s0 a = NeedMore sa -> fp_pull sa x = fp_pull s0 (a ++ x).
+Proof. intros Hok H. rewrite fp_pull_split by exact Hok. rewrite H. reflexivity. Qed.
+
+Section Delivery4.
+  Variable cf : cfg.
+  Variable app : strategy.
+  Hypothesis app_passive : passive app.
+  Hypothesis no_ping_timeout : zpos (c_ping_timeout cf) = None.
+
+  (* the connection somewhere in a conforming stream: [a] = the bytes of the first remaining frame already consumed *)
+  Definition mid (c : conn) (open : list frame) (fs : list frame) (lfs : list lenform) (a : bytes) : Prop :=
+    k_closed c = false /\ k_closing c = false /\ k_deflate c = None /\ k_sent_close_time c = None /\
+    k_frames c = open /\ Forall (fun f => f_rsv1 f = false) open /\
+    exists s0 u, at_boundary s0 (is_text_msg open) u /\ text_state open u /\ fp_pull s0 a = NeedMore (k_ps c) /\
+                 (a = [] \/ exists f lf fs' lfs' b, fs = f :: fs' /\ lfs = lf :: lfs' /\ enc_frame f lf = a ++ b /\ b <> []).
+
+  Lemma mid_of_idle c open fs lfs : idle c open -> mid c open fs lfs [].
+  Proof.
+    intros (A1 & A2 & A3 & A4 & A5 & A6 & u & Hb & Hu). unfold mid. repeat (split; [assumption|]).
+    exists (k_ps c), u. repeat split; auto.
+  Qed.
+  Lemma idle_of_mid c open fs lfs : mid c open fs lfs [] -> idle c open.
+  Proof.
+    intros (A1 & A2 & A3 & A4 & A5 & A6 & s0 & u & Hb & Hu & Hp & _). unfold idle. repeat (split; [assumption|]).
+    exists u. split; [|exact Hu]. change (fp_pull s0 []) with (NeedMore (item:=pitem) (err:=perr) s0) in Hp. injection Hp as <-. exact Hb.
+  Qed.
+
+  Lemma mid_same_core c c' open fs lfs a : same_core c c' -> mid c open fs lfs a -> mid c' open fs lfs a.
+  Proof.
+    intros (S1&S2&S3&S4&S5&S6&S7&S8) (A1 & A2 & A3 & A4 & A5 & A6 & s0 & u & Hb & Hu & Hp & Ha). unfold mid.
+    repeat split; try congruence. exists s0, u. rewrite S1. auto.
+  Qed.
+
+  Definition remaining (fs : list frame) (lfs : list lenform) (a : bytes) : bytes := skipn (length a) (encode_all fs lfs).
+
+  Theorem feed_chunk fs : forall lfs d c open a ms open' rem',
+    mid c open fs lfs a -> data_head open -> Forall plain fs -> forms_ok fs lfs ->
+    ref_messages open fs = Some (ms, open') -> remaining fs lfs a = d ++ rem' ->
+    exists c' open1 fs1 lfs1 a1 ms1 ms2,
+      feedf cf app c d = (c', SOk) /\ mid c' open1 fs1 lfs1 a1 /\ data_head open1 /\ Forall plain fs1 /\ forms_ok fs1 lfs1 /\
+      ref_messages open1 fs1 = Some (ms2, open') /\ ms = ms1 ++ ms2 /\ remaining fs1 lfs1 a1 = rem' /\
+      msg_events (k_tr c') = rev (map ev_of ms1) ++ msg_events (k_tr c) /\ k_sock c' = k_sock c.
+  Proof.
+    induction fs as [|f fs' IH]; intros lfs d c open a ms open' rem' Hmid Hdh Hpl Hforms Href Hrem.
+    - (* nothing is left of the stream *)
+      destruct lfs; [|contradiction].
+      assert (Ha : a = []).
+      { destruct Hmid as (_&_&_&_&_&_&s0&u&_&_&_&[Ha|(f&lf&fs'&lfs'&b&E&_)]); [exact Ha|discriminate]. }
+      subst a. unfold remaining in Hrem. cbn in Hrem. destruct d; [|discriminate]. cbn in Hrem. subst rem'.
+      pose proof (idle_of_mid _ _ _ _ Hmid) as Hidle.
+      exists c, open, [], [], [], [], ms.
+      split.
+      { rewrite feedf_unfold by (eapply idle_ok; exact Hidle). unfold feed_body.
+        destruct Hidle as (Hcl & _). rewrite Hcl. change (fp_pull (k_ps c) []) with (NeedMore (item:=pitem) (err:=perr) (k_ps c)). cbv beta iota.
+        rewrite set_ps_same. reflexivity. }
+      split; [exact Hmid|]. split; [exact Hdh|]. split; [constructor|]. split; [exact I|]. split; [exact Href|].
+      repeat split; reflexivity.
+    - destruct lfs as [|lf lfs']; [contradiction|]. destruct Hforms as [Hform Hforms].
+      inversion Hpl as [|? ? Hpf Hprest]; subst.
+      cbn [ref_messages] in Href.
+      destruct (ref1 open f) as [[ms1 open1]|] eqn:E1; [|discriminate].
+      destruct (ref_messages open1 fs') as [[ms2 open2]|] eqn:E2; [|discriminate].
+      inversion Href; subst ms open'. clear Href.
+      destruct Hmid as (Hcl & Hcg & Hdf & Hsc & Hfr & Hrs & s0 & u & Hb & Hu & Hp & Ha).
+      destruct (ref1_parser open f ms1 open1 u Hdh Hu E1) as (u' & Hval & Hita & Hts).
+      assert (Hok0 : fp_ok s0) by (rewrite Hb; unfold fp_ok, st_ok; cbn; lia).
+      pose proof (ref1_valid _ _ _ E1) as Hv.
+      (* b = what is left of the first frame *)
+      assert (Hb' : exists b, enc_frame f lf = a ++ b /\ b <> []).
+      { destruct Ha as [->|(f0&lf0&fs0&lfs0&b&Ef&El&Eb&Hne)].
+        - exists (enc_frame f lf). split; [reflexivity|]. unfold enc_frame. discriminate.
+        - injection Ef as <- <-. injection El as <- <-. exists b. auto. }
+      destruct Hb' as (b & Eb & Hbne).
+      assert (Hrem' : b ++ encode_all fs' lfs' = d ++ rem').
+      { unfold remaining in Hrem. cbn [encode_all] in Hrem. rewrite Eb, <- app_assoc, skipn_app, skipn_all, Nat.sub_diag in Hrem. exact Hrem. }
+      apply app_eq_app in Hrem' as (l & [[Ebd Erem]|[Edb Eenc]]).
+      + destruct l as [|l0 l].
+        * (* the read ends exactly at the end of the frame *)
+          rewrite app_nil_r in Ebd. subst d. cbn [List.app] in Erem. subst rem'.
+          destruct (pull_one_frame s0 (is_text_msg open) u f lf [] u' Hb Hpf Hform Hv Hval) as (s' & Hpull & Hab').
+          rewrite app_nil_r, Eb in Hpull. rewrite <- (pull_resume s0 a (k_ps c) b Hok0 Hp) in Hpull.
+          assert (Hokc : fp_ok (k_ps c)) by (pose proof (fp_pull_ok s0 a Hok0) as H; rewrite Hp in H; exact H).
+          rewrite feedf_unfold by exact Hokc. unfold feed_body. rewrite Hcl, Hpull.
+          destruct (frame_step cf app app_passive no_ping_timeout (c <| k_ps := s' |>) open f ms1 open1)
+            as (c1 & Eitem & S1 & S2 & S3 & S4 & S5 & S6 & S7 & S8 & S9 & S10); auto.
+          { destruct Hpf as (A & _). exact A. }
+          rewrite Eitem.
+          assert (Hidle1 : idle c1 open1).
+          { unfold idle. repeat split; auto. exists (u_after f (is_text_msg open) u u'). split; [|exact Hts].
+            rewrite S1. cbn. rewrite <- Hita. exact Hab'. }
+          exists c1, open1, fs', lfs', [], ms1, ms2.
+          split.
+          { rewrite feedf_unfold by (eapply idle_ok; exact Hidle1). unfold feed_body. rewrite S2.
+            change (fp_pull (k_ps c1) []) with (NeedMore (item:=pitem) (err:=perr) (k_ps c1)). cbv beta iota. rewrite set_ps_same. reflexivity. }
+          split; [apply mid_of_idle; exact Hidle1|]. repeat split; auto.
+        * (* the read ends inside the frame *)
+          assert (Eenc : enc_frame f lf = (a ++ d) ++ (l0 :: l)) by (rewrite Eb, Ebd, app_assoc; reflexivity).
+          destruct (pull_prefix_needmore s0 (is_text_msg open) u f lf (a ++ d) (l0 :: l) u' Hb Hpf Hform Hv Hval Eenc ltac:(discriminate)) as (sa & Hsa).
+          rewrite <- (pull_resume s0 a (k_ps c) d Hok0 Hp) in Hsa.
+          assert (Hokc : fp_ok (k_ps c)) by (pose proof (fp_pull_ok s0 a Hok0) as H; rewrite Hp in H; exact H).
+          exists (c <| k_ps := sa |>), open, (f :: fs'), (lf :: lfs'), (a ++ d), [], (ms1 ++ ms2).
+          split; [rewrite feedf_unfold by exact Hokc; unfold feed_body; rewrite Hcl, Hsa; reflexivity|].
+          split.
+          { unfold mid. cbn. repeat (split; [assumption|]). exists s0, u. repeat split; auto.
+            - rewrite (pull_resume s0 a (k_ps c) d Hok0 Hp) in Hsa. exact Hsa.
+            - right. exists f, lf, fs', lfs', (l0 :: l). repeat split; auto. discriminate. }
+          split; [exact Hdh|]. split; [exact Hpl|]. split; [split; assumption|].
+          split; [cbn [ref_messages]; rewrite E1, E2; reflexivity|]. split; [reflexivity|].
+          split; [|split; reflexivity].
+          unfold remaining. cbn [encode_all]. rewrite Eenc, <- app_assoc, skipn_app, skipn_all, Nat.sub_diag. cbn [skipn List.app]. rewrite Erem. reflexivity.
+      + (* the read goes beyond this frame *)
+        subst d.
+        destruct (pull_one_frame s0 (is_text_msg open) u f lf (l ++ rem') u' Hb Hpf Hform Hv Hval) as (s' & Hpull & Hab').
+        assert (Hpull2 : fp_pull (k_ps c) (b ++ l) = Item (IFrame f) s' l).
+        { destruct (pull_one_frame s0 (is_text_msg open) u f lf l u' Hb Hpf Hform Hv Hval) as (s2 & Hpull2 & Hab2).
+          rewrite Eb, <- app_assoc in Hpull2. rewrite <- (pull_resume s0 a (k_ps c) (b ++ l) Hok0 Hp) in Hpull2.
+          rewrite Hab2 in Hpull2. rewrite Hab'. exact Hpull2. }
+        assert (Hokc : fp_ok (k_ps c)) by (pose proof (fp_pull_ok s0 a Hok0) as H; rewrite Hp in H; exact H).
+        destruct (frame_step cf app app_passive no_ping_timeout (c <| k_ps := s' |>) open f ms1 open1)
+          as (c1 & Eitem & S1 & S2 & S3 & S4 & S5 & S6 & S7 & S8 & S9 & S10); auto.
+        { destruct Hpf as (A & _). exact A. }
+        assert (Hidle1 : idle c1 open1).
+        { unfold idle. repeat split; auto. exists (u_after f (is_text_msg open) u u'). split; [|exact Hts].
+          rewrite S1. cbn. rewrite <- Hita. exact Hab'. }
+        destruct (IH lfs' l c1 open1 [] ms2 open2 rem' (mid_of_idle _ _ _ _ Hidle1) S8 Hprest Hforms E2)
+          as (c' & open3 & fs3 & lfs3 & a3 & m3 & m4 & Efeed & Hmid3 & Hdh3 & Hpl3 & Hf3 & Href3 & Ems & Hrem3 & Hmsgs & Hsock).
+        { unfold remaining. cbn [length skipn]. exact Eenc. }
+        exists c', open3, fs3, lfs3, a3, (ms1 ++ m3), m4.
+        split; [rewrite feedf_unfold by exact Hokc; unfold feed_body; rewrite Hcl, Hpull2, Eitem; exact Efeed|].
+        split; [exact Hmid3|]. split; [exact Hdh3|]. split; [exact Hpl3|]. split; [exact Hf3|]. split; [exact Href3|].
+        split; [rewrite Ems, app_assoc; reflexivity|]. split; [exact Hrem3|]. split.
+        * rewrite Hmsgs, S9. cbn. rewrite map_app, rev_app_distr, app_assoc. reflexivity.
+        * rewrite Hsock, S10. reflexivity.
+  Qed.
+End Delivery4.
+
+Section Delivery5.
+  Variable cf : cfg.
+  Variable app : strategy.
+  Hypothesis app_passive : passive app.
+  Hypothesis no_ping_timeout : zpos (c_ping_timeout cf) = None.
+
+  (* a quiet environment: time passes, the selector times out, or a read returns the next bytes of the stream *)
+  Definition quiet_step (st : step) : Prop :=
+    match st with StTimeout _ => True | StRead _ (RData (_ :: _)) => True | _ => False end.
+  Fixpoint reads_of (steps : list step) : list bytes :=
+    match steps with
+    | [] => []
+    | StRead _ (RData d) :: r => d :: reads_of r
+    | _ :: r => reads_of r
+    end.
+
+  Lemma advance_core c dt : same_core c (advance c dt) /\ msg_events (k_tr (advance c dt)) = msg_events (k_tr c).
+  Proof. split; [unfold same_core; cbn; tauto|reflexivity]. Qed.
+
+  (* housekeeping between two reads *)
+  Lemma tick_quiet c dt : k_sent_close_time c = None ->
+    exists c1, regular cf app (advance c dt) = (c1, SOk) /\ same_core c c1 /\ msg_events (k_tr c1) = msg_events (k_tr c).
+  Proof.
+    intros Hs. destruct (advance_core c dt) as [A M].
+    assert (Hs' : k_sent_close_time (advance c dt) = None) by exact Hs.
+    destruct (regular_quiet cf app app_passive no_ping_timeout (advance c dt) Hs') as (R1 & R2 & R3).
+    destruct (regular cf app (advance c dt)) as [c1 st]. cbn [fst snd] in *. subst st.
+    exists c1. split; [reflexivity|]. split; [exact (same_core_trans _ _ _ A R2)|congruence].
+  Qed.
+
+  Theorem loop_delivers steps : forall c open fs lfs a ms open' rem',
+    Forall quiet_step steps -> mid c open fs lfs a -> data_head open -> k_sock c = true ->
+    Forall plain fs -> forms_ok fs lfs -> ref_messages open fs = Some (ms, open') ->
+    remaining fs lfs a = concat (reads_of steps) ++ rem' ->
+    exists c' open1 fs1 lfs1 a1 ms1 ms2,
+      loop cf app steps c = emit TBlocked c' /\ mid c' open1 fs1 lfs1 a1 /\ forms_ok fs1 lfs1 /\
+      ref_messages open1 fs1 = Some (ms2, open') /\ ms = ms1 ++ ms2 /\ remaining fs1 lfs1 a1 = rem' /\
+      msg_events (k_tr c') = rev (map ev_of ms1) ++ msg_events (k_tr c).
+  Proof.
+    induction steps as [|st rest IH]; intros c open fs lfs a ms open' rem' Hq Hmid Hdh Hsock Hpl Hforms Href Hrem.
+    - cbn [loop]. destruct Hmid as (Hcl & Hmid'). rewrite Hcl. cbn [reads_of concat List.app] in Hrem.
+      exists c, open, fs, lfs, a, [], ms. split; [reflexivity|]. split; [split; assumption|]. repeat split; auto.
+    - inversion Hq as [|? ? Hst Hrest]; subst.
+      pose proof Hmid as (Hcl & _ & _ & Hsc & _).
+      cbn [loop]. rewrite Hcl.
+      destruct st as [dt|dt r|dt]; try contradiction.
+      + (* an idle timeout *)
+        destruct (tick_quiet c dt Hsc) as (c1 & E1 & C1 & M1). rewrite E1.
+        assert (Hsock1 : k_sock c1 = true) by (destruct C1 as (_&_&_&_&_&_&_&S8); congruence).
+        destruct (IH c1 open fs lfs a ms open' rem' Hrest (mid_same_core c c1 open fs lfs a C1 Hmid) Hdh Hsock1 Hpl Hforms Href Hrem)
+          as (c' & open1 & fs1 & lfs1 & a1 & ms1 & ms2 & El & Hm & Hfo & Hr & Ems & Hre & Hmsg).
+        exists c', open1, fs1, lfs1, a1, ms1, ms2.
+        split; [exact El|]. split; [exact Hm|]. split; [exact Hfo|]. split; [exact Hr|]. split; [exact Ems|]. split; [exact Hre|].
+        rewrite Hmsg, M1. reflexivity.
+      + (* a read *)
+        destruct r as [d| | |]; try contradiction. destruct d as [|b0 d]; [contradiction|].
+        destruct (tick_quiet c dt Hsc) as (c1 & E1 & C1 & M1). rewrite E1.
+        assert (Hsock1 : k_sock c1 = true) by (destruct C1 as (_&_&_&_&_&_&_&S8); congruence).
+        rewrite Hsock1.
+        cbn [reads_of concat] in Hrem. rewrite <- app_assoc in Hrem.
+        destruct (feed_chunk cf app app_passive no_ping_timeout fs lfs (b0 :: d) c1 open a ms open' _
+                    (mid_same_core c c1 open fs lfs a C1 Hmid) Hdh Hpl Hforms Href Hrem)
+          as (c2 & open2 & fs2 & lfs2 & a2 & m1 & m2 & Ef & Hmid2 & Hdh2 & Hpl2 & Hf2 & Href2 & Ems2 & Hrem2 & Hmsg2 & Hsock2).
+        rewrite Ef.
+        destruct (IH c2 open2 fs2 lfs2 a2 m2 open' rem' Hrest Hmid2 Hdh2 ltac:(congruence) Hpl2 Hf2 Href2 Hrem2)
+          as (c' & open3 & fs3 & lfs3 & a3 & m3 & m4 & El & Hm & Hfo & Hr & Ems & Hre & Hmsg).
+        exists c', open3, fs3, lfs3, a3, (m1 ++ m3), m4.
+        split; [exact El|]. split; [exact Hm|]. split; [exact Hfo|]. split; [exact Hr|]. split; [rewrite Ems2, Ems, app_assoc; reflexivity|].
+        split; [exact Hre|]. rewrite Hmsg, Hmsg2, M1, map_app, rev_app_distr, app_assoc. reflexivity.
+  Qed.
+
+  (* when the reads deliver the whole stream, every message of the reference reading has been yielded *)
+  Lemma enc_frame_nonempty f lf : enc_frame f lf <> [].
+  Proof. unfold enc_frame. discriminate. Qed.
+
+  Corollary loop_delivers_all steps c open fs lfs ms open' :
+    Forall quiet_step steps -> idle c open -> data_head open -> k_sock c = true ->
+    Forall plain fs -> forms_ok fs lfs -> ref_messages open fs = Some (ms, open') ->
+    encode_all fs lfs = concat (reads_of steps) ->
+    exists c', loop cf app steps c = emit TBlocked c' /\ idle c' open' /\
+               msg_events (k_tr c') = rev (map ev_of ms) ++ msg_events (k_tr c).
+  Proof.
+    intros Hq Hidle Hdh Hsock Hpl Hforms Href Henc.
+    destruct (loop_delivers steps c open fs lfs [] ms open' [] Hq (mid_of_idle c open fs lfs Hidle) Hdh Hsock Hpl Hforms Href)
+      as (c' & open1 & fs1 & lfs1 & a1 & ms1 & ms2 & El & Hm & Hfo & Hr & Ems & Hre & Hmsg).
+    { unfold remaining. cbn [length skipn]. rewrite app_nil_r. exact Henc. }
+    (* nothing remains: no frame is left and none is half read *)
+    assert (Hnil : fs1 = [] /\ a1 = []).
+    { destruct Hm as (_&_&_&_&_&_&s0&u&_&_&_&Ha). unfold remaining in Hre.
+      destruct Ha as [->|(f&lf&fs'&lfs'&b&E1&E2&E3&Hne)].
+      - split; [|reflexivity]. cbn [length skipn] in Hre. destruct fs1 as [|f fs1]; [reflexivity|].
+        destruct lfs1 as [|lf lfs1]; [contradiction|].
+        cbn [encode_all] in Hre. exfalso. pose proof (enc_frame_nonempty f lf) as Hn. destruct (enc_frame f lf); [congruence|discriminate].
+      - exfalso. subst fs1 lfs1. cbn [encode_all] in Hre. rewrite E3, <- app_assoc, skipn_app, skipn_all, Nat.sub_diag in Hre.
+        cbn [skipn List.app] in Hre. destruct b; [congruence|discriminate]. }
+    destruct Hnil as [-> ->]. cbn in Hr. injection Hr as <- <-. rewrite app_nil_r in Ems. subst ms1.
+    exists c'. split; [exact El|]. split; [eapply idle_of_mid; exact Hm|exact Hmsg].
+  Qed.
+End Delivery5.
+
+(* ====================================================================================================== *)
+(* from the very start of a connection attempt: the upgrade reply, then the stream *)
+Section Delivery6.
+  Variable cf : cfg.
+  Variable app : strategy.
+  Hypothesis app_passive : passive app.
+  Hypothesis no_ping_timeout : zpos (c_ping_timeout cf) = None.
+
+  (* a reply block: nothing after its terminating CRLFCRLF, which occurs only at the end, at most 16 KiB *)
+  Definition reply_block (reply : bytes) : Prop :=
+    exists i, find_sep CRLFCRLF reply = Some i /\ (i + 4 = length reply)%nat /\ N.of_nat (length reply) <= 16384.
+
+  Lemma pull_reply reply : reply_block reply ->
+    exists s', fp_pull fp_init reply = Item (IHeader reply) s' [] /\ at_boundary s' false UAcc.
+  Proof.
+    intros (i & Hf & Hi & Hl).
+    rewrite fp_pull_unfold by exact fp_init_ok. unfold pull_body.
+    destruct reply as [|r0 reply']; [cbn in Hf; discriminate|].
+    cbn [fp_init paw pbuf pg prem List.app]. rewrite Hf. cbn [length CRLFCRLF]. rewrite Hi.
+    assert (Etl : too_long (Some 16384) (length (r0 :: reply')) = false).
+    { unfold too_long. apply N.ltb_ge. exact Hl. }
+    rewrite Etl. rewrite firstn_all, skipn_all. unfold fp_resume. cbn [fp_phase after_resume].
+    eexists. split; [reflexivity|]. reflexivity.
+  Qed.
+
+  Lemma msg_events_not_event l tr : Forall not_event l -> msg_events (l ++ tr) = msg_events tr.
+  Proof. induction 1 as [|x l Hx _ IH]; [reflexivity|]. destruct x; cbn in *; try contradiction; exact IH. Qed.
+
+  (* the accepted upgrade reply (no compression negotiated) takes a fresh connection to the state between two frames *)
+  Lemma handshake_idle c reply proto :
+    k_ps c = fp_init -> k_closed c = false -> k_closing c = false -> k_deflate c = None -> k_sent_close_time c = None ->
+    k_frames c = [] -> reply_block reply ->
+    on_response (c_accept cf) (parse_response reply) = HReady proto None ->
+    exists c', feedf cf app c reply = (c', SOk) /\ idle c' [] /\ msg_events (k_tr c') = msg_events (k_tr c) /\
+               k_sock c' = k_sock c.
+  Proof.
+    intros Hps Hcl Hcg Hdf Hsc Hfr Hrb Hresp.
+    destruct (pull_reply reply Hrb) as (s' & Hpull & Hab).
+    rewrite feedf_unfold by (rewrite Hps; exact fp_init_ok). unfold feed_body. rewrite Hcl, Hps, Hpull.
+    unfold on_item. rewrite Hresp. unfold feed_yield, in_feed_yield. cbn [on_event].
+    rewrite (deliver_passive app app_passive).
+    match goal with |- context [regular cf app ?x] => set (cr := x) end.
+    assert (Hscr : k_sent_close_time cr = None) by exact Hsc.
+    destruct (regular_quiet cf app app_passive no_ping_timeout cr Hscr) as (R1 & (S1&S2&S3&S4&S5&S6&S7&S8) & R3).
+    destruct (regular cf app cr) as [c2 st2]. cbn [fst snd] in *. subst st2.
+    assert (Hokc2 : fp_ok (k_ps c2)) by (rewrite S1; unfold cr; cbn; rewrite Hab; unfold fp_ok, st_ok; cbn; lia).
+    assert (F1 : k_closed c2 = false) by (rewrite S4; exact Hcl).
+    assert (F2 : k_closing c2 = false) by (rewrite S3; exact Hcg).
+    assert (F3 : k_deflate c2 = None) by (rewrite S5; exact Hdf).
+    assert (F4 : k_sent_close_time c2 = None) by (rewrite S6; exact Hsc).
+    assert (F5 : k_frames c2 = []) by (rewrite S2; exact Hfr).
+    assert (F6 : k_ps c2 = s') by (rewrite S1; reflexivity).
+    exists c2. split.
+    { rewrite feedf_unfold by exact Hokc2. unfold feed_body. rewrite F1.
+      change (fp_pull (k_ps c2) []) with (NeedMore (item:=pitem) (err:=perr) (k_ps c2)). cbv beta iota.
+      rewrite set_ps_same. reflexivity. }
+    split.
+    { unfold idle. rewrite F1, F2, F3, F4, F5, F6. repeat split; auto. exists UAcc. split; [exact Hab|reflexivity]. }
+    split; [rewrite R3; reflexivity|rewrite S8; reflexivity].
+  Qed.
+
+  (* C01 for the whole run: connect, the accepted reply in one read, then the conforming stream in any pieces with any
+     waiting in between: the message events of the run are exactly the messages of the reference reading, in order *)
+  Theorem run_delivers keys wf zt ct dt0 reply proto steps fs lfs ms open' :
+    (match wf with [] => True | w :: _ => w = WOk end) ->
+    reply_block reply -> on_response (c_accept cf) (parse_response reply) = HReady proto None ->
+    Forall quiet_step steps -> Forall plain fs -> forms_ok fs lfs ->
+    ref_messages [] fs = Some (ms, open') -> encode_all fs lfs = concat (reads_of steps) ->
+    msg_events (k_tr (run cf app (init keys wf zt ct) CnOk (StRead dt0 (RData reply) :: steps))) = rev (map ev_of ms).
+  Proof.
+    intros Hwf Hrb Hresp Hq Hpl Hforms Href Henc.
+    assert (W : forall c, msg_events (k_tr (if k_with c then close_socket c else c)) = msg_events (k_tr c)).
+    { intros c. destruct (k_with c); [|reflexivity]. destruct (ext_close_socket c) as (l & E & F). rewrite E. apply msg_events_not_event. exact F. }
+    unfold run. rewrite W. unfold run_gen. rewrite !(deliver_passive app app_passive).
+    set (c1 := emit (TEv EvConnecting) (init keys wf zt ct)).
+    set (c2 := c1 <| k_sock := true |>).
+    assert (E3 : exists c3, (let '(w, c') := pop_wfault c2 in
+                  match w with WOk => (emit (TWriteReq true) c', @None exn) | _ => (emit (TWriteReq false) c', Some XTransportFail) end) = (c3, None)
+                 /\ k_ps c3 = fp_init /\ k_closed c3 = false /\ k_closing c3 = false /\ k_deflate c3 = None /\
+                    k_sent_close_time c3 = None /\ k_frames c3 = [] /\ k_sock c3 = true /\ k_ready c3 = false /\ msg_events (k_tr c3) = []).
+    { unfold pop_wfault, c2, c1. cbn [k_wfaults init emit]. destruct wf as [|w ws].
+      - eexists. split; [reflexivity|]. cbn. repeat split; reflexivity.
+      - subst w. eexists. split; [reflexivity|]. cbn. repeat split; reflexivity. }
+    destruct E3 as (c3 & E3 & P1 & P2 & P3 & P4 & P5 & P6 & P7 & P8 & P9).
+    change (negb (k_sock c2)) with false. change (k_closed c2) with false. change (k_closing c2) with false. cbv beta iota.
+    rewrite E3. rewrite (deliver_passive app app_passive).
+    set (c4 := emit (TEv EvConnected) c3).
+    cbn [loop]. change (k_closed c4) with (k_closed c3). rewrite P2.
+    assert (Er : regular cf app (advance c4 dt0) = (advance c4 dt0, SOk)).
+    { unfold regular. change (k_ready (advance c4 dt0)) with (k_ready c3). rewrite P8. reflexivity. }
+    rewrite Er. change (k_sock (advance c4 dt0)) with (k_sock c3). rewrite P7.
+    destruct Hrb as (i & Hf & Hi & Hl). assert (Hrb : reply_block reply) by (exists i; auto).
+    destruct reply as [|r0 reply']; [cbn in Hf; discriminate|].
+    destruct (handshake_idle (advance c4 dt0) (r0 :: reply') proto) as (c5 & E5 & Hidle & M5 & S5); auto.
+    rewrite E5.
+    destruct (loop_delivers_all cf app app_passive no_ping_timeout steps c5 [] fs lfs ms open' Hq Hidle I ltac:(rewrite S5; exact P7) Hpl Hforms Href Henc)
+      as (c' & El & _ & Hmsg).
+    rewrite El. change (k_tr (emit TBlocked c')) with (TBlocked :: k_tr c'). cbn [msg_events]. rewrite Hmsg, M5.
+    change (msg_events (k_tr (advance c4 dt0))) with (msg_events (k_tr c3)). rewrite P9. apply app_nil_r.
+  Qed.
+End Delivery6.
